@@ -19,6 +19,8 @@ def fld(t, args=()):
 def ival(v):
     if v is None:
         return {"t": "null"}
+    if isinstance(v, (list, tuple)):
+        return {"t": "l", "v": [ival(x) for x in v]}
     if isinstance(v, bool):
         return {"t": "b", "v": v}
     return {"t": "i", "v": v}
@@ -32,6 +34,7 @@ TYPES = {
         "a": fld(N("Int")), "b": fld(NN(N("Int"))), "s": fld(N("String")), "t": fld(N("Boolean")),
         "f": fld(N("Int"), [("x", N("Int")), ("y", NN(N("Int")), 5), ("z", N("Int"), 7)]),
         "g": fld(N("Int"), [("req", NN(N("Int")))]),
+        "sum": fld(N("Int"), [("xs", L(NN(N("Int"))), [1, 2]), ("ys", L(N("Int")))]),
         "o": fld(N("A")), "on": fld(NN(N("A"))), "l": fld(L(N("A"))), "ln": fld(NN(L(NN(N("A"))))),
         "i": fld(N("I")), "u": fld(N("U")), "li": fld(L(NN(N("Int")))), "lli": fld(L(L(N("Int")))),
         "lu": fld(L(N("U"))), "lin": fld(L(NN(N("I"))))}},
@@ -71,6 +74,8 @@ def lit(v):
         return "true" if v["v"] else "false"
     if v["t"] == "var":
         return "$" + v["n"]
+    if v["t"] == "l":
+        return "[" + ", ".join(lit(x) for x in v["v"]) + "]"
     return str(v["v"])
 
 
@@ -201,6 +206,22 @@ class DocGen:
             if r < 0.35 and not (nonnull and not a["hasDefault"]):
                 continue   # not provided
             r2 = rnd.random()
+            if a["type"][0] == "L":
+                # a list literal whose items are integers, nulls (nullable items only) or variables of a compatible type
+                item_nn = a["type"][1][0] == "NN"
+                items = []
+                for _ in range(rnd.randint(0, 3)):
+                    r3 = rnd.random()
+                    if r3 < 0.5:
+                        items.append({"t": "i", "v": rnd.randint(0, 9)})
+                    elif r3 < 0.65 and not item_nn:
+                        items.append({"t": "null"})
+                    else:
+                        var = rnd.choice(["vn", "vd"] + ([] if item_nn else ["vi"]))
+                        self.used_vars.add(var)
+                        items.append({"t": "var", "n": var})
+                out.append([a["name"], {"t": "l", "v": items}])
+                continue
             if r2 < 0.5:
                 out.append([a["name"], {"t": "i", "v": rnd.randint(0, 9)}])
             elif r2 < 0.62 and not nonnull:
